@@ -434,7 +434,9 @@ static void gen_bloom(hctx* h) {
     free(buf);
     do_xxh_big(h, (1ull << 32) + 13, 0);
     do_bloom_huge(h, (1ull << 32) + 1, 0);
-    if (h->thorough) { do_bloom_huge(h, (1ull << 32) - 31, 1); do_bloom_huge(h, (1ull << 32) + 33, 1); }
+    /* thorough: two more sizes; the write-and-reload variant (full = 1) touches 8 GiB and more of real memory, which a run
+     * under a memory limit does not have (seen: the sanitizer's allocator gives up) - only on request (VERIF_BLOOM_FULL) */
+    if (h->thorough) { int full = getenv("VERIF_BLOOM_FULL") != NULL; do_bloom_huge(h, (1ull << 32) - 31, full); do_bloom_huge(h, (1ull << 32) + 33, full); }
     if (h->thorough) { do_xxh_big(h, (1ull << 32) - 33, 1); do_xxh_big(h, (1ull << 33) + 64, 2654435761ull); }
 
     /* 2. size rounding, incl. the requests whose rounding would wrap size_t */
